@@ -22,7 +22,7 @@ Theorem C20_once_per_request : forall behav gets posts e q,
 Proof.
   exact (fun behav gets posts e q Ng Np =>
     serve_once impl_rflags behav gets posts e q (eq_refl : rf_capture impl_rflags = true) Ng Np
-      (noswallow_strict impl_rflags behav (q_params q) (eq_refl : rf_fb_key impl_rflags = false)
+      (noswallow_strict impl_rflags behav (q_dict q) (eq_refl : rf_fb_key impl_rflags = false)
          (eq_refl : rf_fb_klong impl_rflags = false) (eq_refl : rf_fb_other impl_rflags = false))).
 Qed.
 Print Assumptions C20_once_per_request.
@@ -82,6 +82,13 @@ Theorem C20_failure_contained : forall behav rs e pre q post,
 Proof. exact (failure_contained impl_rflags). Qed.
 Print Assumptions C20_failure_contained.
 
+(* the dictionary a handler receives: exactly the request's parameters when no key is repeated; in general one entry
+   per key holding the FIRST value (dict() of aiohttp's multi-dictionary) *)
+Theorem C20_params_dictionary : forall p,
+  (NoDup (map fst p) -> dict_of p = p) /\ (forall k, pget k (dict_of p) = pget k p).
+Proof. exact (fun p => conj (dict_of_nodup p) (fun k => pget_dict_of k p)). Qed.
+Print Assumptions C20_params_dictionary.
+
 Theorem C20_failure_is_400 : failure impl_rflags = mkResp 400 (BText invalid).
 Proof. exact eq_refl. Qed.
 Print Assumptions C20_failure_is_400.
@@ -102,25 +109,27 @@ Theorem C20_capture_refuted_when_late_bound :
   spec_route late gets [] GET [47] = Some (HFn 1 None 1%nat).
 Proof. vm_compute. split; reflexivity. Qed.
 
-(* T20.ws: messages the wrapper delivers intact to a handler that returns are handed over exactly once, in order *)
+(* T20.ws, full statement: for ALL message sequences (every JSON kind, any nesting) on which the handler returns,
+   every message is handed to .ws.m exactly once, in arrival order, and the loop stays alive. Needs the regenerated
+   facts that KGFnWrapper converts lists with kg_asarray and passes None as :undefined (fixes 3618fda, 6c9cc59). *)
 Theorem C20_ws_in_order_once : forall ok msgs,
-  (forall m, In m msgs -> deliver m = DIntact /\ ok m = true) -> ws_run ok msgs = (msgs, true).
-Proof. exact ws_all_delivered. Qed.
+  (forall m, In m msgs -> ok m = true) -> ws_run impl_wflags ok msgs = (msgs, true).
+Proof. exact (fun ok msgs => ws_full impl_wflags ok msgs (eq_refl : wf_kg impl_wflags = true) (eq_refl : wf_none impl_wflags = true)). Qed.
 Print Assumptions C20_ws_in_order_once.
 
-(* ... and in every case the invocations are the deliverable messages of a prefix, in arrival order *)
-Theorem C20_ws_prefix : forall ok msgs, exists k, fst (ws_run ok msgs) = filter delivered (firstn k msgs).
-Proof. exact ws_prefix_in_order. Qed.
+(* ... and whatever the handler does, the invocations are the deliverable messages of a prefix, in arrival order
+   (a handler that raises ends the listen loop: the model follows the code) *)
+Theorem C20_ws_prefix : forall ok msgs, exists k, fst (ws_run impl_wflags ok msgs) = filter (delivered impl_wflags) (firstn k msgs).
+Proof. exact (ws_prefix_in_order impl_wflags). Qed.
 Print Assumptions C20_ws_prefix.
 
-(* the full statement "EVERY message reaches the handler intact" is false for three classes of messages *)
-Definition C20_ws_full_statement : Prop := forall ok msgs, (forall m, In m msgs -> ok m = true) -> ws_run ok msgs = (msgs, true).
-Theorem C20_ws_null_refuted : ws_run (fun _ => true) [JNum 4; JNull; JNum 8] = ([JNum 4; JNum 8], true).
+(* before the fixes (np.asarray, None passed on) the full statement was false for three classes of messages *)
+Theorem C20_ws_null_refuted : ws_run old_wflags (fun _ => true) [JNum 4; JNull; JNum 8] = ([JNum 4; JNum 8], true).
 Proof. reflexivity. Qed.
 Theorem C20_ws_ragged_refuted :
-  ws_run (fun _ => true) [JNum 4; JArr [JNum 4; JArr [JNum 8]]; JNum 8] = ([JNum 4], false).
+  ws_run old_wflags (fun _ => true) [JNum 4; JArr [JNum 4; JArr [JNum 8]]; JNum 8] = ([JNum 4], false).
 Proof. reflexivity. Qed.
-Theorem C20_ws_mixed_refuted : deliver (JArr [JNum 4; JStr [120]]) = DChanged.
+Theorem C20_ws_mixed_refuted : deliver old_wflags (JArr [JNum 4; JStr [120]]) = DChanged.
 Proof. reflexivity. Qed.
 
 (* T20.json (tree level; PARTIAL: number and string TEXT conversion of json.dumps/json.loads is assumed):
